@@ -17,6 +17,7 @@ from ..ivl import IvlModel
 from ..meanci import ConfModel, KINDS, check_mean_interval, F0, F1, unwrap_ok
 from ..nf import NotReal
 from ..realmode import Domain, prune, quantile_hook
+from ..sqrtdom import check_paths as check_sqrt_domain
 from ..statsmodel import StatsModel, by_ref, ZERO
 from ..symex import Summarizer, Unsupported
 from ..types import RESULT
@@ -24,11 +25,15 @@ from ..types import RESULT
 PID = 'C01'
 S1, S2, N, L, X = T.sym('S1'), T.sym('S2'), T.sym('n'), T.sym('L'), T.sym('x')
 NF_N = T.op('i2f', N)
+# Statistics and intervals are decided on states parametrised by (S1, v, n) with S2 = (n-1) v + S1^2/n: a bijection with
+# (S1, S2) for n >= 2, and v >= 0 is Cauchy-Schwarz for real data - so a guard on the sign of the variance is decidable.
+V = T.sym('v')
+S2V = T.op('add', T.op('mul', T.op('sub', NF_N, T.mk_flt(Fraction(1))), V), T.op('div', T.op('mul', S1, S1), NF_N))
 
 
 def refs():
     mean = T.op('div', S1, NF_N)
-    var = T.op('div', T.op('sub', S2, T.op('div', T.op('mul', S1, S1), NF_N)), T.op('sub', NF_N, F1))
+    var = T.op('div', T.op('sub', S2V, T.op('div', T.op('mul', S1, S1), NF_N)), T.op('sub', NF_N, F1))
     sd = T.op('sqrt', var)
     se = T.op('div', sd, T.op('sqrt', NF_N))
     nu = T.op('sub', NF_N, F1)
@@ -36,7 +41,7 @@ def refs():
 
 
 def domain(sm):
-    d = Domain(sm.nf, {'n': (Fraction(2), None, False, True), 'L': (Fraction(0), Fraction(1), True, True)})
+    d = Domain(sm.nf, {'n': (Fraction(2), None, False, True), 'L': (Fraction(0), Fraction(1), True, True), 'v': (Fraction(0), None, False, True)})
     d.hooks.append(quantile_hook())
     return d
 
@@ -94,7 +99,7 @@ def check_fold(chk, key, where, sm, sx, rec, state_pred=None):
     sub = {}
     hv = hav
     sub[hv[3][sm.a_s1][3][sm.k_sum]] = S1
-    sub[hv[3][sm.a_s2][3][sm.k_sum]] = S2
+    sub[hv[3][sm.a_s2][3][sm.k_sum]] = S2V
     sub[hv[3][sm.a_n]] = N
     for x in sm.comps(hv):
         sub[x] = ZERO
@@ -120,7 +125,7 @@ def run_cfg(chk, facts, cfg):
     ap = sm.arith['path']
     mean, var, sd, se, nu = refs()
     dom = domain(sm)
-    state = sm.arith_state(S1, S2, N)
+    state = sm.arith_state(S1, S2V, N)
     counts = {'producers': 0, 'forwarders': 0, 'folds': 0, 'updates': 0}
 
     # ---- D1 base + step
@@ -172,6 +177,8 @@ def run_cfg(chk, facts, cfg):
         try:
             sx, paths = sm.summ(fn, ['self'], args=[by_ref(state)])
             chk.saw(facts, fn, paths=len(paths))
+            if name == 'sample_std_dev':
+                check_sqrt_domain(chk, '%s:%s%s' % (PID, name, sfx), where, paths, 'Arithmetic::sample_std_dev', counts)
             feas = prune(paths, dom)
             good = len(feas) == 1 and feas[0][0].is_ret() and not feas[0][1] and nf.term_equal(feas[0][0].ret, ref)
             chk.ob('%s:%s%s' % (PID, name, sfx), 'E4', '%s == %s on n >= 2' % (name, T.show(ref)), good,
@@ -192,6 +199,7 @@ def run_cfg(chk, facts, cfg):
             try:
                 sx, paths = sm.summ(fn, ['self', 'confidence'], args=[by_ref(state), cm.value(kind, L)])
                 chk.saw(facts, fn, paths=len(paths))
+                check_sqrt_domain(chk, key, where, paths, '%s(%s)' % (label, kname), counts)
                 check_mean_interval(chk, PID, key, where, sm, im, cm, paths, kind, L, mean, se, nu, dom,
                                     '%s(%s): bounds are mean -/+ c*s/sqrt(n) with c the t(n-1) quantile (normal above ~1e5) at q' % (label, kname))
             except (Unsupported, NotReal) as e:
@@ -212,6 +220,7 @@ def run_cfg(chk, facts, cfg):
             try:
                 sx, paths = sm.summ(fn, ['confidence', 'data'], args=[cm.value(kind, L), None])
                 chk.saw(facts, fn, paths=len(paths))
+                check_sqrt_domain(chk, key, where, paths, '%s(%s)' % (label, kname), counts)
                 if len(sx.loop_records) != 1:
                     chk.ob(key, 'T1-fold', label, None, 'undecided: %d loops on the way (expected the one fold over the data)' % len(sx.loop_records), where)
                     continue
@@ -244,7 +253,9 @@ def run_cfg(chk, facts, cfg):
         chk.floor('forwarding-methods', counts['forwarders'], 7)
         chk.floor('folds', counts['folds'], 3)
         chk.floor('accumulator-updates', counts['updates'], 3)
+        chk.floor('square-roots-examined', counts.get('roots', 0), 1)
     chk.rules.append('E3+E4: path summaries pruned on the domain (sign certificates), bounds compared with the statement by rational-function normal form')
+    chk.rules.append('sqrt-domain: every radicand on a producer path is sign-safe in floating point by shape or by a guard of the path (sa/sqrtdom.py)')
     chk.rules.append('T1-fold: loop = havoc + one symbolic iteration; base/step refinement to (S1,S2,n)')
 
 
